@@ -56,6 +56,20 @@ CHECKS["C12"] = {
     "note": "Trusted: globalToLocal(a,b)=inv(a)*b and adjoint() (decided under C01/C04); NumPy broadcasting semantics.",
 }
 
+CHECKS["C16"] = {
+    "engine": "sa",
+    "technique": "path-sensitive must-fact / counting dataflow over one iteration of the growth loop, with staleness tracking of derived locals",
+    "design_ref": "DESIGN.md section 4 C16",
+    "text": ("Decides for all seeds, obstruction sets, callbacks and budgets the structural tree invariants of the RRT* growth "
+             "loop: exactly one insertion per iteration (root once), stored cost expression and chosen parent always refer "
+             "to the same node, every parent link dominated by a negative collision test on that very pair, the first "
+             "parent's distance established inside [min, max] for the current sample (no stale distance), strict-improvement "
+             "choose-parent storing the compared cost, only the not-yet-inserted node is ever wired (acyclic by "
+             "construction), path extraction by parent walk + goal, and a non-zero divisor in the progress display for "
+             "every budget >= 1. Numerical distances and the R-tree's nearest-neighbour answers are not decided."),
+    "note": "Trusted: purity of caller-supplied callbacks; rtree nearest() (library).",
+}
+
 _PENDING = "rule module not yet built in this round (see DESIGN.md section 4 for the planned static rules)"
 for _i in range(1, 21):
     _p = "C%02d" % _i
